@@ -373,6 +373,21 @@ pub fn unverify(header: &mut ExtendedHeader) {
         }),
     );
 
+    // the vote in the commit has to come from the new validator
+    match header.commit.signatures[0] {
+        CommitSig::BlockIdFlagAbsent => {}
+        CommitSig::BlockIdFlagNil {
+            validator_address: ref mut address,
+            ..
+        }
+        | CommitSig::BlockIdFlagCommit {
+            validator_address: ref mut address,
+            ..
+        } => {
+            *address = validator_address;
+        }
+    }
+
     hash_and_sign(header, &key);
 
     if was_invalidated {
